@@ -179,8 +179,50 @@ func runC11(c *report.Ctx) {
 
 	// ---- (5) bucket isolation ---------------------------------------------------------------------------------
 	c.Rule("bucket-isolation", "store and overlay keys of bucket operations come from innerKey / innerKeyForIterator / joinBucketPath; returned keys have the prefix sliced off; bucket names are validated before an index entry is written", 15)
-	innerKey := fn(c, pkgLDB, "levelBucket", "innerKey")
-	innerKeyIt := fn(c, pkgLDB, "levelBucket", "innerKeyForIterator")
+	// the key builders (innerKey and innerKeyForIterator today): the methods of levelBucket that hand back a byte
+	// slice made from the bucket's path and the path separator
+	builders := map[*ssa.Function]bool{}
+	lb := p.Type(pkgLDB, "levelBucket")
+	sepC := p.Obj(pkgLDB, "bucketPathSep")
+	for _, f := range p.ModFuncs {
+		if pk := an.FuncPkg(f); pk == nil || pk.Path() != pkgLDB || f.Signature.Recv() == nil || lb == nil {
+			continue
+		}
+		if n := an.NamedOf(f.Signature.Recv().Type()); n == nil || n.Obj() != lb.Obj() || f.Signature.Results().Len() == 0 {
+			continue
+		}
+		if sl, ok := f.Signature.Results().At(0).Type().Underlying().(*types.Slice); !ok || !types.Identical(sl.Elem(), types.Typ[types.Byte]) {
+			continue
+		}
+		mk, sep, store := false, false, false
+		an.Instrs(f, func(in ssa.Instruction) {
+			switch x := in.(type) {
+			case *ssa.MakeSlice:
+				mk = true
+			case *ssa.Convert:
+				if k, isK := x.X.(*ssa.Const); isK && sepC != nil && k.Value != nil && p.Desc(k) == constString(sepC) {
+					sep = true
+				}
+			}
+			if cc := an.CallOf(in); cc != nil && cc.StaticCallee() != nil && an.FuncPkg(cc.StaticCallee()) != nil && an.FuncPkg(cc.StaticCallee()).Path() == pkgLevelDB {
+				store = true
+			}
+		})
+		if mk && sep && !store && len(fieldReads(f, lb, "path")) > 0 {
+			builders[f] = true
+		}
+	}
+	innerKey := fnOpt(c, pkgLDB, "levelBucket", "innerKey")
+	innerKeyIt := fnOpt(c, pkgLDB, "levelBucket", "innerKeyForIterator")
+	if innerKey != nil {
+		builders[innerKey] = true
+	}
+	if innerKeyIt != nil {
+		builders[innerKeyIt] = true
+	}
+	if len(builders) == 0 {
+		c.Lost("ldb: the key builders of levelBucket (innerKey / innerKeyForIterator)")
+	}
 	join := fn(c, pkgLDB, "", "joinBucketPath")
 	valid := fn(c, pkgLDB, "", "isValidBucketName")
 	okOrigin := func(v ssa.Value) (bool, string) {
@@ -208,7 +250,7 @@ func runC11(c *report.Ctx) {
 			switch y := x.(type) {
 			case *ssa.Call:
 				cal := y.Call.StaticCallee()
-				if cal == innerKey || cal == innerKeyIt {
+				if cal != nil && builders[cal] {
 					continue
 				}
 				n := calleeName(p, y)
@@ -287,17 +329,19 @@ func runC11(c *report.Ctx) {
 	// NewIterator: range bounds from innerKeyForIterator
 	newIt := fn(c, pkgLDB, "levelBucket", "NewIterator")
 	rng := p.Type(pkgDB, "Range")
-	if newIt != nil && innerKeyIt != nil && rng != nil {
+	if newIt != nil && len(builders) > 0 && rng != nil {
 		okS, okL := false, false
 		for _, st := range fieldStores(newIt, rng, "Start") {
-			if call, ok := st.(*ssa.Store).Val.(*ssa.Call); ok && call.Call.StaticCallee() == innerKeyIt {
+			if call, ok := st.(*ssa.Store).Val.(*ssa.Call); ok && call.Call.StaticCallee() != nil && builders[call.Call.StaticCallee()] {
 				okS = true
 			}
 		}
 		for _, st := range fieldStores(newIt, rng, "Limit") {
 			d := p.Desc(st.(*ssa.Store).Val)
-			if strings.Contains(d, nm(innerKeyIt)) {
-				okL = true
+			for b := range builders {
+				if strings.Contains(d, nm(b)) {
+					okL = true
+				}
 			}
 		}
 		if okS && okL {
